@@ -34,13 +34,44 @@ Proof. intros. reflexivity. Qed.
 (* with a media query the placeholder is wrapped in `@media <query> { ... }`, opened and closed
    exactly once *)
 Lemma import_placeholder_media : forall o sign spos path p q pq ps r endp st,
+  str_eqb_ci q s_layer = false ->
   import_try o sign spos (Leaf (TStr path) p :: Leaf (TIdent q) pq :: Leaf TSemi ps :: r) endp st =
   (Some r,
    tok_at (tok_at (tok_at (tok_at (tok_at st (TAt s_media) spos None) (TIdent q) pq None)
                           TCurly spos None)
                   (TComment (sign ++ [32] ++ url_encode path)) spos None)
           TCloseCurly spos None).
-Proof. intros. reflexivity. Qed.
+Proof.
+  intros o sign spos path p q pq ps r endp st H. unfold import_try, import_target.
+  cbn [skip_ws node_tok is_ws_or_comment import_conds]. rewrite H. reflexivity.
+Qed.
+
+(* the bare `layer` keyword directly after the target opens an anonymous `@layer { }` wrapper
+   (fix 89a064d; before it the keyword was read as a media type) *)
+Lemma import_placeholder_bare_layer : forall o sign spos path p q pq ps r endp st,
+  str_eqb_ci q s_layer = true ->
+  import_try o sign spos (Leaf (TStr path) p :: Leaf (TIdent q) pq :: Leaf TSemi ps :: r) endp st =
+  (Some r,
+   tok_at (tok_at (tok_at (tok_at st (TAt q) pq (Some (TIdent q))) TCurly pq None)
+                  (TComment (sign ++ [32] ++ url_encode path)) spos None)
+          TCloseCurly pq None).
+Proof.
+  intros o sign spos path p q pq ps r endp st H. unfold import_try, import_target.
+  cbn [skip_ws node_tok is_ws_or_comment import_conds]. rewrite H. reflexivity.
+Qed.
+
+(* `layer(..)` in any letter case: one `@layer <name> { }` wrapper (fix 33fc779) *)
+Lemma import_placeholder_layer_fn : forall o sign spos path p x px body be cl ps r endp st,
+  str_eqb_ci x s_layer = true ->
+  import_try o sign spos (Leaf (TStr path) p :: Block (TFunc x) px body be cl :: Leaf TSemi ps :: r) endp st =
+  (Some r,
+   tok_at (tok_at (tok_at (rpx_body o false body None (tok_at st (TAt x) px (Some (TFunc x)))) TCurly px None)
+                  (TComment (sign ++ [32] ++ url_encode path)) spos None)
+          TCloseCurly px None).
+Proof.
+  intros o sign spos path p x px body be cl ps r endp st H. unfold import_try, import_target.
+  cbn [skip_ws node_tok is_ws_or_comment import_conds]. rewrite H. reflexivity.
+Qed.
 
 (* without an import sign `@import` is an ordinary at-rule: it goes through the generic
    prelude walker *)
@@ -50,7 +81,7 @@ Lemma import_passthrough : forall o rec p r endp at_start st,
   Some (at_prelude o rec false (o_mark (cur_out st)) r (tok_at st (TAt s_import) p None)).
 Proof.
   intros o rec p r endp at_start st H. unfold at_rule.
-  replace (str_eqb s_import s_import) with true by reflexivity. rewrite H. reflexivity.
+  replace (str_eqb_ci s_import s_import) with true by reflexivity. rewrite H. reflexivity.
 Qed.
 
 (* an import that is not first in its rule list is flagged *)
@@ -62,10 +93,45 @@ Lemma import_position_warning : forall o rec sign p r endp st,
                 st' = snd (import_try o sign (cur_pos r endp) r endp st0).
 Proof.
   intros o rec sign p r endp st H. unfold at_rule.
-  replace (str_eqb s_import s_import) with true by reflexivity. rewrite H.
+  replace (str_eqb_ci s_import s_import) with true by reflexivity. rewrite H.
   destruct (import_try o sign (cur_pos r endp) r endp (warn st W_IMPORT_POS (cur_pos r endp))) as [[rest|] s1] eqn:E.
   - exists rest, s1. split; [reflexivity|]. exists (warn st W_IMPORT_POS (cur_pos r endp)). split; [reflexivity|]. rewrite E. reflexivity.
   - eexists _, s1. split; [reflexivity|]. exists (warn st W_IMPORT_POS (cur_pos r endp)). split; [reflexivity|]. rewrite E. reflexivity.
+Qed.
+
+(* the "start of the sheet" survives `@import` / `@charset` rules (any letter case) and nothing else
+   (fix 73ca189: every import after the first used to be flagged) *)
+Lemma import_start_survives : forall f o x p r endp st rest st',
+  str_eqb_ci x s_import || str_eqb_ci x s_charset = true ->
+  at_rule o (fun body be s => rules f o body be false s) (Leaf (TAt x) p :: r) endp true st = Some (rest, st') ->
+  rules (S f) o (Leaf (TAt x) p :: r) endp true st = rules f o rest endp true st'.
+Proof.
+  intros f o x p r endp st rest st' Hx E. cbn [rules skip_ws node_tok is_ws_or_comment].
+  rewrite E. unfold keeps_start. rewrite Hx. reflexivity.
+Qed.
+
+Lemma import_start_lost : forall f o x p r endp at_start st rest st',
+  str_eqb_ci x s_import || str_eqb_ci x s_charset = false ->
+  at_rule o (fun body be s => rules f o body be false s) (Leaf (TAt x) p :: r) endp at_start st = Some (rest, st') ->
+  rules (S f) o (Leaf (TAt x) p :: r) endp at_start st = rules f o rest endp false st'.
+Proof.
+  intros f o x p r endp at_start st rest st' Hx E. cbn [rules skip_ws node_tok is_ws_or_comment].
+  rewrite E. unfold keeps_start. rewrite Hx. destruct at_start; reflexivity.
+Qed.
+
+(* a qualified rule ends the start of the sheet *)
+Lemma qrule_start_lost : forall f o l endp at_start st,
+  skip_ws l <> [] -> at_rule o (fun body be s => rules f o body be false s) (skip_ws l) endp at_start st = None ->
+  rules (S f) o l endp at_start st =
+  rules f o (fst (qrule o (skip_ws l) endp st)) endp false (snd (qrule o (skip_ws l) endp st)).
+Proof.
+  intros f o l endp at_start st Hne E. cbn [rules].
+  destruct (skip_ws l) as [|x r] eqn:El; [contradiction|]. rewrite E.
+  assert (K : keeps_start (x :: r) = false).
+  { unfold at_rule in E. destruct x as [t p|? ? ? ? ?]; [|reflexivity]. destruct t; try reflexivity.
+    destruct (if str_eqb_ci s s_import then import_sign o else None);
+      [destruct (import_try o s0 (cur_pos r endp) r endp _) as [[?|] ?]; discriminate | discriminate]. }
+  rewrite K, Bool.andb_false_r. destruct (qrule o (x :: r) endp st) as [rest st']. reflexivity.
 Qed.
 
 (* full statement: whatever form the target has (string, url token), the placeholder carrying
@@ -93,7 +159,7 @@ Proof.
   intros sign path target Ht. unfold transform, import_sheet, import_opts.
   cbn [nodes_size fold_right node_size Nat.add].
   cbn [rules skip_ws node_tok is_ws_or_comment at_rule import_sign].
-  replace (str_eqb s_import s_import) with true by reflexivity.
+  replace (str_eqb_ci s_import s_import) with true by reflexivity.
   cbn [cur_pos node_pos].
   assert (E : import_try (import_opts sign) sign (mkpos 0 7)
                 [Leaf (TWs [32]) (mkpos 0 7); Leaf target (mkpos 0 8); Leaf TSemi (mkpos 0 20)] (mkpos 0 21) w_init =
@@ -142,7 +208,7 @@ Qed.
 (* with host conversion off a qualified rule never reaches the host branch *)
 Lemma host_off_identity : forall o l endp st,
   convert_host o = false -> qrule o l endp st = qr_loop o (skip_ws l) false false st.
-Proof. intros o l endp st H. unfold qrule. rewrite H. reflexivity. Qed.
+Proof. intros o l endp st H. unfold qrule, qr_main. rewrite H. reflexivity. Qed.
 
 (* a pure `:host { ... }` rule: everything goes through host_emit *)
 Lemma host_pure_rule : forall o pc ph pb body be cl rest endp st,
@@ -159,7 +225,7 @@ Lemma host_combined_dropped_with_warning : forall o pc ph x px pb body be cl res
 Proof.
   intros o pc ph x px pb body be cl rest endp st H Hx. unfold qrule. rewrite H.
   unfold host_try_parse. cbn [skip_ws skip_comments node_tok is_ws_or_comment is_comment].
-  replace (str_eqb s_host s_host) with true by reflexivity.
+  replace (str_eqb_ci s_host s_host) with true by reflexivity.
   cbn [host_scan node_tok]. rewrite Hx. cbn [host_scan node_tok is_ws_or_comment keep_first pos_after cur_pos node_pos].
   destruct x; try discriminate; reflexivity.
 Qed.
@@ -168,7 +234,7 @@ Qed.
    (fix bdd7adf; before it the rule was converted, D26) *)
 Lemma host_spaced_not_converted : forall o pc w pw r endp st,
   qrule o (Leaf TColon pc :: Leaf (TWs w) pw :: r) endp st =
-  qr_loop o (Leaf TColon pc :: Leaf (TWs w) pw :: r) false false st.
+  qr_main o (Leaf TColon pc :: Leaf (TWs w) pw :: r) endp st.
 Proof.
   intros o pc w pw r endp st. unfold qrule. cbn [skip_ws node_tok is_ws_or_comment].
   destruct (convert_host o); reflexivity.
